@@ -133,6 +133,12 @@ func execOp(line string) (res string) {
 		if sig.R.Cmp(r0) != 0 || sig.S.Cmp(s0) != 0 {
 			return "ok " + out + " signature-object-modified"
 		}
+		// the caller changes the number behind S IN PLACE (same *big.Int) and serialises the same object again: the output
+		// must be the encoding of the new pair (a memo keyed by the pointers would return the old bytes)
+		if sig.S != sig.R {
+			sig.S.Add(sig.S, big.NewInt(1))
+			out += " " + hx(sig.Serialise())
+		}
 		return "ok " + out
 	case "der.parse", "der.lax":
 		if !argc(1) {
